@@ -228,6 +228,9 @@ func (u *upstream) getClient(addr string) (*client, error) {
 	}
 	c, err := u.createClient(addr)
 	call.res, call.err = c, err
+	// The call is only shared by the callers which are waiting for it now,
+	// the callers coming later must not see the result of a finished one.
+	u.createClientCalls.Delete(addr)
 	close(call.done)
 	return c, err
 }
